@@ -35,6 +35,12 @@ def all_ops():
         ops.append(('run', s, False))
         ops.append(('run', s, True))
         ops.append(('uncache', s))
+    # re-executions that fail: nothing but successful executions may change the cache
+    for i in range(len(NODES)):
+        for bust in (False, True):
+            ops.append(('runfail', (i,), bust, i))
+    ops.append(('runfail', (3,), True, 0))
+    ops.append(('runfail', (3, 1), True, 0))
     return ops
 
 
@@ -60,9 +66,10 @@ class Model:
         self.d: dict = {}
         self.persistent = persistent
 
-    def run(self, req, bust, epoch):
+    def run(self, req, bust, epoch, failing=()):
         served = set() if bust else set(self.d)
         needed, values = set(), {}
+        failed = set()
 
         def need(i):
             if i in needed:
@@ -78,13 +85,16 @@ class Model:
                 values[i] = self.d[i]
             else:
                 dep = NODES[i][1]
+                executed.append(i)
+                if i in failing or (dep is not None and dep in failed):
+                    failed.add(i)
+                    continue
                 dv = (values[dep],) if dep is not None else ()
                 values[i] = ('N', tname(self.kind, i), NODES[i][0], (), dv, epoch)
-                executed.append(i)
         for i in executed:
-            if NODES[i][2] == 'K' and self.persistent:
+            if i not in failed and NODES[i][2] == 'K' and self.persistent:
                 self.d[i] = values[i]
-        return {i: values[i] for i in req}, executed
+        return {i: values[i] for i in req if i in values}, executed
 
     def uncache(self, req):
         for i in req:
@@ -129,17 +139,18 @@ def replay_history(cfg, hist, check_last_only=True):
     try:
         for step, op in enumerate(hist):
             epoch = step + 1
-            U.WORLD.reset(epoch=epoch)
+            failing = (op[3],) if op[0] == 'runfail' else ()
+            U.WORLD.reset(epoch=epoch, faults=[NODES[i][0] for i in failing])
             tasks = build_tasks(kind)
             lab = labtech.Lab(storage=storage, runner_backend='serial', notebook=False)
             last = (step == len(hist) - 1)
             d = f'cfg={cfg} history={hist[:step + 1]}'
             try:
-                if op[0] == 'run':
-                    want, want_exec = model.run(op[1], op[2], epoch)
+                if op[0] in ('run', 'runfail'):
+                    want, want_exec = model.run(op[1], op[2], epoch, failing)
                     got = lab.run_tasks([tasks[i] for i in op[1]], bust_cache=op[2], disable_progress=True, disable_top=True)
                     if last:
-                        gotd = {i: got.get(tasks[i], '<missing>') for i in op[1]}
+                        gotd = {i: got[tasks[i]] for i in op[1] if tasks[i] in got}
                         if gotd != want:
                             viols.append(('return-mismatch', f'{d}: returned {gotd} model {want}'))
                         ran = sorted(ev[1][1] for ev in U.WORLD.log if ev[0] == 'start')
@@ -282,7 +293,7 @@ def run(tier: str, seed: int) -> Result:
         'samples': [{'history': [list(map(_j, op)) for op in (sample_hist or ())]}, {'per_configuration': per_cfg}],
         'evaluations': stats['transitions'],
         'distinct_nontrivial': stats['states'],
-        'rule': ('BFS over histories of {run_tasks(S), run_tasks(S, bust_cache=True), uncache_tasks(S)} for every non-empty S of size <= 2 over 5 tasks '
+        'rule': ('BFS over histories of {run_tasks(S), run_tasks(S, bust_cache=True), uncache_tasks(S)} for every non-empty S of size <= 2 over 5 tasks, plus runs in which one task fails (own failure with/without bust_cache; failing dependency), '
                  '(2 independent cacheable, 1 cache=None, 1 cacheable depending on a cacheable, 1 cacheable depending on a cache=None task); '
                  'every transition is the real Lab replayed from the empty storage and compared with the dict model (return value, executed set, is_cached of all, '
                  'cached_tasks for 4 type lists, complete storage listing, read-back of everything on a copy); states = distinct canonical (model, listing) forms'),
